@@ -101,7 +101,8 @@ def do_run(seed, tiers):
             meta["check_runs"] = outcomes
             meta["detected_by"] = next((o["tier"] for o in outcomes if o["exit"] == 1), None)
         meta["what_was_run"] = "lib/seedcheck.py run: scratch worktree of /repo HEAD; demo without patch; git apply; go build; pinned suite; demo with patch; ./check %s with VERIF_REPO=<worktree>" % prop
-        json.dump(meta, open(os.path.join(seed, "meta.json"), "w"), indent=1)
+        if "--nosave" not in sys.argv:
+            json.dump(meta, open(os.path.join(seed, "meta.json"), "w"), indent=1)
     finally:
         sh("git -C /repo worktree remove --force %s" % wt)
         shutil.rmtree(wt, ignore_errors=True)
